@@ -166,8 +166,10 @@ pub enum Leaf {
     CountVarOnly,
     /// the empty string: defined, renders as nothing
     Empty,
+    /// a float range whose first branch ends exclusively at 1.5
+    FRange,
 }
-pub const LEAVES: [Leaf; 8] = [Leaf::Text, Leaf::Interp, Leaf::Comp, Leaf::Range, Leaf::Plural, Leaf::Num, Leaf::CountVarOnly, Leaf::Empty];
+pub const LEAVES: [Leaf; 9] = [Leaf::Text, Leaf::Interp, Leaf::Comp, Leaf::Range, Leaf::Plural, Leaf::Num, Leaf::CountVarOnly, Leaf::Empty, Leaf::FRange];
 
 #[derive(Clone, Copy, Debug, PartialEq, Eq)]
 pub enum Refk {
@@ -189,8 +191,10 @@ pub enum Refk {
     /// a range branch / a plural form made of the reference alone (it may reduce to nothing)
     RangeBranchWhole,
     PluralFormWhole,
+    /// a literal float count that is the exclusive end of the float range leaf
+    CountLitF,
 }
-pub const REFS: [Refk; 17] = [
+pub const REFS: [Refk; 18] = [
     Refk::Whole,
     Refk::Mid,
     Refk::InComp,
@@ -208,6 +212,7 @@ pub const REFS: [Refk; 17] = [
     Refk::Two,
     Refk::RangeBranchWhole,
     Refk::PluralFormWhole,
+    Refk::CountLitF,
 ];
 
 pub fn rbranch(v: Val, counts: Vec<CountSpec>) -> Branch {
@@ -236,6 +241,17 @@ pub fn leaf_entries(name: &str, leaf: Leaf, tag: &str) -> Vec<(String, Val)> {
         ],
         Leaf::Num => vec![(name.into(), Val::UInt(7))],
         Leaf::Empty => vec![(name.into(), st(""))],
+        Leaf::FRange => vec![(
+            name.into(),
+            Val::Range(RangeDecl {
+                ty: Some("f32".into()),
+                branches: vec![
+                    rbranch(s(vec![text(&format!("[{tag}.lt]")), var("x")]), vec![CountSpec::Str("..1.5".into())]),
+                    rbranch(s(vec![text(&format!("[{tag}.mid]")), var("count")]), vec![CountSpec::Str("1.5..=2.5".into())]),
+                    rbranch(s(vec![text(&format!("[{tag}.fb]")), var("count")]), vec![]),
+                ],
+            }),
+        )],
         Leaf::CountVarOnly => vec![(name.into(), s(vec![text(&format!("[{tag}]")), var("count"), var("x")]))],
     }
 }
@@ -265,6 +281,7 @@ pub fn ref_entries(name: &str, r: Refk, t: &str, u: &str, tag: &str) -> Vec<(Str
             (format!("{name}_other"), s(vec![text(&format!("[{tag}.pother]")), var("count")])),
         ],
         Refk::Two => one(s(vec![fk(t), text(" & "), fk(u)])),
+        Refk::CountLitF => one(s(vec![fk_args(t, vec![("count", FkArg::Float("1.5".into())), ("x", FkArg::Str(vec![text("X")]))])])),
         Refk::RangeBranchWhole => one(Val::Range(RangeDecl {
             ty: Some("u8".into()),
             branches: vec![rbranch(s(vec![fk(t)]), vec![CountSpec::UInt(0)]), rbranch(s(vec![text(&format!("[{tag}.rfb]")), var("count")]), vec![])],
